@@ -57,6 +57,16 @@ class SymEnv:
     def hint_unit(self, xname, yname):
         core.CTX.hints.setdefault("unit", []).append((xname, yname))
 
+    def choice(self, name, options):
+        """symbolic selection among options: a symbolic integer the explorer forks on."""
+        v = self.real(name)
+        k = len(options)
+        self.assume(SymBool(z3.Or(*[v.e == i for i in range(k)])))
+        for i in range(k - 1):
+            if v == i:
+                return options[i]
+        return options[k - 1]
+
     def hint_positive(self, name):
         core.CTX.hints.setdefault("positive", []).append(name)
 
@@ -144,6 +154,9 @@ class ConcEnv:
 
     def hint_unit(self, xname, yname):
         pass
+
+    def choice(self, name, options):
+        return options[int(round(float(self.values[name])))]
 
     def hint_positive(self, name):
         pass
